@@ -432,7 +432,7 @@ H_OBSERVE_FS(fs, LT)
 H_DEFAULT(fs, LT)
 /*@GROUP name=fs_insert props=C09,C02 kind=K unwind=6 solver=kissat split=SW:0:2 unwindset=_ZN3etl6rotateIPiEET_S2_S2_S2_.0:2@*/
 H_INSERT_FS(fs, LT)
-/*@GROUP name=fs_insert_hint props=C09,C02 kind=K unwind=6 solver=kissat split=SW:3:5 unwindset=_ZN3etl6rotateIPiEET_S2_S2_S2_.0:2 tier=thorough@*/
+/*@GROUP name=fs_insert_hint props=C09,C02 kind=K unwind=6 solver=kissat split=SW:3:5 qsplit=3 unwindset=_ZN3etl6rotateIPiEET_S2_S2_S2_.0:2@*/
 H_INSERT_HINT_FS(fs, LT)
 /*@GROUP name=fs_insert_full props=C09,C02,C05 kind=K unwind=6 solver=kissat split=SW:0:5 unwindset=_ZN3etl6rotateIPiEET_S2_S2_S2_.0:2@*/
 H_INSERT_FULL_FS(fs, LT)
